@@ -295,8 +295,13 @@ var solvers = []solverSpec{
 var reValue = regexp.MustCompile(`\(\s*(\|[^|]*\||[^\s()]+)\s+(\(-\s*\d+\)|-?\d+|true|false)\s*\)`)
 
 func runSolver(s solverSpec, file string, timeoutS int) (verdict string, out string, secs float64) {
+	return runSolverCtx(context.Background(), s, file, timeoutS)
+}
+
+// runSolverCtx: as runSolver, but the process is killed when parent is cancelled (verdict "cancelled").
+func runSolverCtx(parent context.Context, s solverSpec, file string, timeoutS int) (verdict string, out string, secs float64) {
 	args := s.args(timeoutS, file)
-	ctx, cancel := context.WithTimeout(context.Background(), time.Duration(timeoutS+5)*time.Second)
+	ctx, cancel := context.WithTimeout(parent, time.Duration(timeoutS+5)*time.Second)
 	defer cancel()
 	cmd := exec.CommandContext(ctx, args[0], args[1:]...)
 	var buf bytes.Buffer
@@ -313,7 +318,9 @@ func runSolver(s solverSpec, file string, timeoutS int) (verdict string, out str
 	case "timeout":
 		verdict = "timeout"
 	default:
-		if strings.Contains(out, "timeout") || ctx.Err() != nil {
+		if parent.Err() != nil {
+			verdict = "cancelled"
+		} else if strings.Contains(out, "timeout") || ctx.Err() != nil {
 			verdict = "timeout"
 		} else {
 			verdict = "error"
@@ -470,54 +477,55 @@ func (o *Obligation) solve(dir string, timeoutS int, thorough bool) {
 			}
 		}
 	} else {
-		// quick tier: short sequential attempts (plain query first), then a race of every variant
-		// and the two z3 arithmetic configurations, then the remaining solvers
+		// quick tier: a short attempt on the plain query, then a race of the plain query (two z3
+		// arithmetic configurations) and every variant; the first decisive answer wins and the
+		// other processes are killed; then the remaining solvers
 		v, out, secs := runSolver(solvers[0], path, 2)
 		o.Secs += secs
 		decided := record(solvers[0].name, v, out)
-		for _, vr := range variants {
-			if decided {
-				break
-			}
-			v, out, secs := runSolver(solvers[0], vr.path, 4)
-			o.Secs += secs
-			decided = recordV(vr, solvers[0].name, v, out)
-		}
 		if !decided {
 			type res struct {
 				vr           *variant
 				name, v, out string
 				secs         float64
 			}
+			rctx, rcancel := context.WithCancel(context.Background())
 			n := 2 + len(variants)
 			ch := make(chan res, n)
 			for _, s := range solvers[:2] {
 				s := s
 				go func() {
-					v, out, secs := runSolver(s, path, timeoutS)
+					v, out, secs := runSolverCtx(rctx, s, path, timeoutS)
 					ch <- res{nil, s.name, v, out, secs}
 				}()
 			}
 			for i := range variants {
 				vr := &variants[i]
 				go func() {
-					v, out, secs := runSolver(solvers[0], vr.path, timeoutS)
+					v, out, secs := runSolverCtx(rctx, solvers[0], vr.path, timeoutS)
 					ch <- res{vr, solvers[0].name, v, out, secs}
 				}()
 			}
+			maxSecs := 0.0
 			for i := 0; i < n; i++ {
 				r := <-ch
-				o.Secs += r.secs
+				if r.secs > maxSecs {
+					maxSecs = r.secs
+				}
+				if decided || r.v == "cancelled" {
+					continue
+				}
 				if r.vr == nil {
 					decided = record(r.name, r.v, r.out)
 				} else {
 					decided = recordV(*r.vr, r.name, r.v, r.out)
 				}
 				if decided {
-					// the other processes run until their own timeout; their answers are ignored
-					break
+					rcancel()
 				}
 			}
+			rcancel()
+			o.Secs += maxSecs
 			if !decided {
 				for _, vr := range variants {
 					if vr.exact {
